@@ -298,6 +298,8 @@ impl DebuggerContext {
             );
 
             let result = vm.parse(&rule, &input);
+            #[cfg(pest_parser_pest_verif)]
+            verif::point("parser.check_cancel");
             // A run that was cancelled by a restart must not report its outcome: the controller
             // is waiting in `join` and no longer receives, so a send on a full channel never returns.
             if is_done.load(Ordering::SeqCst) {
